@@ -11,23 +11,27 @@
 From PNC Require Import Base.Util Model.FileStruct Model.Ioapi Proofs.IoapiProofs.
 Local Open Scope Z_scope.
 
-(* One step of copy, subsetVariables, renameVariable, sliceDimensions, applyAlongDimensions or stack, from ANY coherent file
-   (any numbers of steps/layers/rows/columns/variables, gridded or boundary), inside the safe domain:
-   if it completes, the result is coherent.
-   PARTIAL: eval, mask and interpSigma are modelled (Model/Ioapi.v impl_eval/impl_mask/impl_interp) and held to the
-   library by the correspondence check, but their preservation proofs are not done:
-   (* UNPROVED: forall f o g, coherentb f = true -> iop_region f o = 0%nat -> istep f o = Ok g -> coherentb g = true
-      for o = IEval _ _ _ | IMask | IInterp _  (believed true; two nested updatemeta/add2varlist calls each) *) *)
+(* One step of ANY modelled operation — copy, subsetVariables, renameVariable, sliceDimensions, applyAlongDimensions, eval,
+   mask, stack, interpSigma: the full operation set named in the property — from ANY coherent file (any numbers of
+   steps/layers/rows/columns/variables, gridded or boundary), inside region 0: if it completes, the result is coherent.
+   PARTIAL only because of the known-defect regions (reducers along TSTEP, an empty subset) and region 3 (a standard
+   variable missing from VAR-LIST, never produced by the library's constructors). *)
 Theorem C10_step_coherent_partial : forall f o g,
-  coherentb f = true -> proved_op o = true -> iop_region f o = 0%nat -> istep f o = Ok g -> coherentb g = true.
+  coherentb f = true -> iop_region f o = 0%nat -> istep f o = Ok g -> coherentb g = true.
 Proof. exact istep_coherent. Qed.
 Print Assumptions C10_step_coherent_partial.
 
-(* Sequences of any length of those operations (induction over the sequence) *)
+(* Sequences of any length (induction over the sequence) *)
 Theorem C10_run_coherent_partial : forall ops f g,
-  coherentb f = true -> forallb proved_op ops = true -> irun_region f ops = 0%nat -> irun f ops = Ok g -> coherentb g = true.
+  coherentb f = true -> irun_region f ops = 0%nat -> irun f ops = Ok g -> coherentb g = true.
 Proof. exact irun_coherent. Qed.
 Print Assumptions C10_run_coherent_partial.
+
+(* The library's self audit as a secondary oracle: every structural key of audit_meta(fail='ignore') that is a function of
+   the modelled state is implied by coherence (DESIGN: audit_implies) *)
+Theorem C10_audit_implied : forall f, coherentb f = true -> audit_structb f = true.
+Proof. exact audit_implied. Qed.
+Print Assumptions C10_audit_implied.
 
 (* The mechanism: updatemeta() restores coherence from ANY state whose pruned VAR-LIST is non-empty, whose VGLVLS
    has one more entry than there are layers, and whose TFLAG — if it is going to be kept — starts at SDATE/STIME *)
@@ -84,10 +88,10 @@ Proof. vm_compute. split; eexists; repeat split; reflexivity. Qed.
 Definition iops_ex : list iop :=
   [ISlice [(DT, false, [1%nat; 2%nat])]; ISubset [1%nat]; IRename 1%nat 5%nat; IApply DL FHalf; IStack 2 [(2000001, 10000); (2000001, 20000)]; ICopy; IApply DR FHalf].
 Example C10_hyp_inhabited :
-  coherentb f0 = true /\ forallb proved_op iops_ex = true /\ irun_region f0 iops_ex = 0%nat
+  coherentb f0 = true /\ irun_region f0 iops_ex = 0%nat
   /\ exists g, irun f0 iops_ex = Ok g /\ coherentb g = true /\ nt g = 4%nat /\ nvars g = 1%nat /\ stime g = 10000 /\ nvgl g = 2%nat /\ varlist g = [5%nat].
 Proof. vm_compute. repeat split; try reflexivity. eexists. repeat split; reflexivity. Qed.
-(* the unproved operations do restore coherence on this example (evaluation, not proof) *)
+(* eval, mask and interpSigma inside a run *)
 Example C10_eval_mask_interp_example :
   exists g, irun f0 [IEval 3%nat 0%nat true; IMask; IInterp 3; IEval 4%nat 1%nat false] = Ok g /\ coherentb g = true /\ varlist g = [4%nat].
 Proof. eexists. vm_compute. repeat split; reflexivity. Qed.
